@@ -116,6 +116,9 @@ func (c *Checkpointer) AddAlreadyKnownSeq(seq ...SequenceID) {
 		c.processedSeqs[seq] = struct{}{}
 	}
 	c.stats.AlreadyKnownSequenceCount += int64(len(seq))
+	if base.VerifOn {
+		base.VerifEmit(verifObj(c), "AlreadyKnown", "toks", verifSeqs(seq), "E", verifSeqs(c.expectedSeqs), "P", verifSeqSet(c.processedSeqs))
+	}
 	c.lock.Unlock()
 }
 
@@ -131,6 +134,9 @@ func (c *Checkpointer) AddProcessedSeq(seq SequenceID) {
 	c.lock.Lock()
 	c.processedSeqs[seq] = struct{}{}
 	c.stats.ProcessedSequenceCount++
+	if base.VerifOn {
+		base.VerifEmit(verifObj(c), "Processed", "toks", verifSeqs([]SequenceID{seq}), "E", verifSeqs(c.expectedSeqs), "P", verifSeqSet(c.processedSeqs))
+	}
 	c.lock.Unlock()
 }
 
@@ -157,6 +163,9 @@ func (c *Checkpointer) AddProcessedSeqIDAndRev(seq *SequenceID, idAndRev IDAndRe
 
 	c.processedSeqs[*seq] = struct{}{}
 	c.stats.ProcessedSequenceCount++
+	if base.VerifOn {
+		base.VerifEmit(verifObj(c), "Processed", "toks", verifSeqs([]SequenceID{*seq}), "E", verifSeqs(c.expectedSeqs), "P", verifSeqSet(c.processedSeqs))
+	}
 
 	c.lock.Unlock()
 }
@@ -178,6 +187,9 @@ func (c *Checkpointer) AddExpectedSeqs(seqs ...SequenceID) {
 	c.lock.Lock()
 	c.expectedSeqs = append(c.expectedSeqs, seqs...)
 	c.stats.ExpectedSequenceCount += int64(len(seqs))
+	if base.VerifOn {
+		base.VerifEmit(verifObj(c), "Expect", "toks", verifSeqs(seqs), "E", verifSeqs(c.expectedSeqs), "P", verifSeqSet(c.processedSeqs))
+	}
 	c.lock.Unlock()
 }
 
@@ -201,6 +213,9 @@ func (c *Checkpointer) AddExpectedSeqIDAndRevs(seqs map[IDAndRev]SequenceID) {
 		c.expectedSeqs = append(c.expectedSeqs, seq)
 	}
 	c.stats.ExpectedSequenceCount += int64(len(seqs))
+	if base.VerifOn {
+		base.VerifEmit(verifObj(c), "ExpectIDRev", "n_added", len(seqs), "E", verifSeqs(c.expectedSeqs), "P", verifSeqSet(c.processedSeqs))
+	}
 	c.lock.Unlock()
 }
 
@@ -238,12 +253,22 @@ func (c *Checkpointer) CheckpointNow() {
 	base.TracefCtx(c.ctx, base.KeyReplicate, "checkpointer: running")
 
 	seq := c._updateCheckpointLists()
+	if base.VerifOn {
+		ret := []SequenceID{}
+		if seq != nil {
+			ret = append(ret, *seq)
+		}
+		base.VerifEmit(verifObj(c), "Tick", "ret", verifSeqs(ret), "E", verifSeqs(c.expectedSeqs), "P", verifSeqSet(c.processedSeqs), "th", c.expectedSeqCompactionThreshold, "last", verifSeqs([]SequenceID{c.lastCheckpointSeq}))
+	}
 	if seq == nil {
 		return
 	}
 
 	base.InfofCtx(c.ctx, base.KeyReplicate, "checkpointer: calculated seq: %v", seq)
 	err := c._setCheckpoints(seq)
+	if base.VerifOn {
+		base.VerifEmit(verifObj(c), "Persist", "seq", verifSeqs([]SequenceID{*seq}), "err", verifErr(err), "last", verifSeqs([]SequenceID{c.lastCheckpointSeq}))
+	}
 	if err != nil {
 		base.WarnfCtx(c.ctx, "couldn't set checkpoints: %v", err)
 	}
@@ -476,6 +501,9 @@ func (c *Checkpointer) setLastCheckpointSeq(remoteCheckpoint *replicationCheckpo
 
 	base.InfofCtx(c.ctx, base.KeyReplicate, "using checkpointed seq: %q", parsedCheckpointSeq.String())
 	c.lastCheckpointSeq = parsedCheckpointSeq
+	if base.VerifOn {
+		base.VerifEmit(verifObj(c), "Resume", "last", verifSeqs([]SequenceID{c.lastCheckpointSeq}), "local", localSeq, "remote", remoteSeq, "client", c.clientID)
+	}
 
 	return nil
 }
